@@ -1,4 +1,5 @@
-//! Two user-defined codecs of widths no built-in codec has (3 and 7 bits), implemented by hand
+//! User-defined codecs (3 and 7 bits: widths no built-in codec has; 8 bits with non-ASCII codes; 2 bits and
+//! 1 bit with a declaration order that is not the code order), implemented by hand
 //! (not through the derive, so that a defect in the derive macro cannot leak into the sequence-level
 //! properties). The generic sequence code must treat them like any built-in codec.
 
@@ -118,6 +119,79 @@ impl Codec for Oct {
     }
     fn items() -> impl Iterator<Item = Self> {
         OCT.iter().map(|s| s.0).collect::<Vec<_>>().into_iter()
+    }
+}
+
+/// 2-bit codec whose declaration (and `items()`) order is not the order of its codes
+/// (A=00, C=01, T=10, G=11: the `(byte >> 1) & 3` encoding)
+#[derive(Clone, Copy, Debug, PartialEq, Eq, Hash, PartialOrd, Ord)]
+#[repr(u8)]
+pub enum Duo {
+    A = 0b00,
+    C = 0b01,
+    G = 0b11,
+    T = 0b10,
+}
+
+const DUO: [(Duo, u8); 4] = [(Duo::A, b'A'), (Duo::C, b'C'), (Duo::G, b'G'), (Duo::T, b'T')];
+
+impl Codec for Duo {
+    const BITS: u8 = 2;
+    fn unsafe_from_bits(b: u8) -> Self {
+        Self::try_from_bits(b).unwrap_or_else(|| panic!("Unrecognised bit pattern: {b:08b}"))
+    }
+    fn try_from_bits(b: u8) -> Option<Self> {
+        DUO.iter().find(|s| s.0 as u8 == b).map(|s| s.0)
+    }
+    fn unsafe_from_ascii(c: u8) -> Self {
+        Self::try_from_ascii(c).unwrap_or_else(|| panic!("Unrecognised character: {c:#04X?}"))
+    }
+    fn try_from_ascii(c: u8) -> Option<Self> {
+        DUO.iter().find(|s| s.1 == c).map(|s| s.0)
+    }
+    fn to_char(self) -> char {
+        DUO.iter().find(|s| s.0 == self).unwrap().1 as char
+    }
+    fn to_bits(self) -> u8 {
+        self as u8
+    }
+    fn items() -> impl Iterator<Item = Self> {
+        DUO.iter().map(|s| s.0).collect::<Vec<_>>().into_iter()
+    }
+}
+
+/// 1-bit codec (purine / pyrimidine), declared with the larger code first
+#[derive(Clone, Copy, Debug, PartialEq, Eq, Hash, PartialOrd, Ord)]
+#[repr(u8)]
+pub enum Uno {
+    Y = 1,
+    R = 0,
+}
+
+const UNO: [(Uno, u8); 2] = [(Uno::Y, b'Y'), (Uno::R, b'R')];
+
+impl Codec for Uno {
+    const BITS: u8 = 1;
+    fn unsafe_from_bits(b: u8) -> Self {
+        Self::try_from_bits(b).unwrap_or_else(|| panic!("Unrecognised bit pattern: {b:08b}"))
+    }
+    fn try_from_bits(b: u8) -> Option<Self> {
+        UNO.iter().find(|s| s.0 as u8 == b).map(|s| s.0)
+    }
+    fn unsafe_from_ascii(c: u8) -> Self {
+        Self::try_from_ascii(c).unwrap_or_else(|| panic!("Unrecognised character: {c:#04X?}"))
+    }
+    fn try_from_ascii(c: u8) -> Option<Self> {
+        UNO.iter().find(|s| s.1 == c).map(|s| s.0)
+    }
+    fn to_char(self) -> char {
+        UNO.iter().find(|s| s.0 == self).unwrap().1 as char
+    }
+    fn to_bits(self) -> u8 {
+        self as u8
+    }
+    fn items() -> impl Iterator<Item = Self> {
+        UNO.iter().map(|s| s.0).collect::<Vec<_>>().into_iter()
     }
 }
 
